@@ -202,6 +202,31 @@ def _tagkind_catalogue():
 TAGKIND = _tagkind_catalogue()
 
 
+def _deep_catalogue():
+    """valid models whose naive (un-memoised) processing is exponential in the length of a chain"""
+    out = []
+    for depth in (8, 16, 24, 32, 48):
+        # computed fields that use the computed field of the previous record twice
+        m = "R0: !record\n  fields:\n    x: int\n  computedFields:\n    v: x\n"
+        for k in range(1, depth + 1):
+            m += "R%d: !record\n  fields:\n    r: R%d\n  computedFields:\n    v: r.v + r.v\n" % (k, k - 1)
+        out.append(("computed field of the previous record used twice, %d records" % depth, m + "P: !protocol\n  sequence:\n    s: R%d\n" % depth))
+        # computed fields of one record, each using the previous one twice
+        m = "R: !record\n  fields:\n    x: int\n  computedFields:\n    k0: x\n" + "".join("    k%d: k%d + k%d\n" % (k, k - 1, k - 1) for k in range(1, depth + 1))
+        out.append(("computed field using the previous one twice, %d fields" % depth, m + "P: !protocol\n  sequence:\n    s: R\n"))
+        # records holding the previous record twice; aliases of aliases; optionals / vectors of the previous alias
+        m = "D0: !record\n  fields:\n    x: int\n" + "".join("D%d: !record\n  fields:\n    a: D%d\n    b: D%d\n" % (k, k - 1, k - 1) for k in range(1, depth + 1))
+        out.append(("record holding the previous record twice, %d records" % depth, m + "P: !protocol\n  sequence:\n    s: !stream {items: D%d}\n" % depth))
+        m = "A0: int\n" + "".join("A%d: %s\n" % (k, ["A%d", "A%d?", "A%d*", "'string->A%d'"][k % 4] % (k - 1)) for k in range(1, depth + 1))
+        out.append(("alias chain, %d aliases" % depth, m + "P: !protocol\n  sequence:\n    s: A%d\n" % depth))
+        m = "U0: !record\n  fields:\n    x: int\n" + "".join("U%d: !record\n  fields:\n    u: [U%d, string]\n    o: U%d?\n  computedFields:\n    c:\n      !switch u:\n        U%d p: 1\n        string s: 2\n" % (k, k - 1, k - 1, k - 1) for k in range(1, depth + 1))
+        out.append(("unions / switches over the previous record, %d records" % depth, m + "P: !protocol\n  sequence:\n    s: U%d\n" % depth))
+    return out
+
+
+DEEP = _deep_catalogue()
+
+
 def run(ctx):
     common.build_yardl()
     quick = ctx.tier == "quick"
@@ -235,6 +260,8 @@ def run(ctx):
         jobs.append(("cycle", i))
     for i in range(len(TAGKIND)):
         jobs.append(("tagkind", i))
+    for i in range(len(DEEP)):
+        jobs.append(("deep", i))
     # every catalogue expression, alone, on a record whose fields have known types (plus seeded compositions)
     n_expr = len(fuzzgen.EXPRS) + (60 if quick else 2000)
     for i in range(n_expr):
@@ -263,6 +290,10 @@ def run(ctx):
             files = {k: v for k, v in files.items() if not k.startswith(root_rel + "/") or k.endswith("_package.yml")}
             files[root_rel + "/model.yml"] = TAGKIND[i]
             desc += " tag/kind mismatch `%s`" % TAGKIND[i].replace("\n", " | ")[:90]
+        elif kind == "deep":
+            files = {k: v for k, v in files.items() if not k.startswith(root_rel + "/") or k.endswith("_package.yml")}
+            files[root_rel + "/model.yml"] = DEEP[i][1]
+            desc += " valid model with a long dependency chain: %s" % DEEP[i][0]
         elif kind == "arbitrary":
             files[root_rel + "/model.yml"] = fuzzgen.arbitrary_defs(r, r.randint(1, 8))
             if r.random() < 0.3:
